@@ -84,13 +84,9 @@ def run(tier, seed, t0):
         from vlib import sanitize
         m = sanitize.miri_layer(PROP, miri_requests, seed, tier)
         res = common.Result.merge([res.to_dict(), m.to_dict()])
-    # distinct_nontrivial: number of distinct model states reached (measured in the driver), lower-bounded by the
-    # per-workload maxima; the set in `nontrivial` only holds the sampled states.
+    # distinct_nontrivial: number of distinct model states reached, as measured inside the driver (per workload the
+    # largest count any shard reported; shards explore disjoint prefixes, so this is a lower bound on the union)
     distinct = sum(v for k, v in res.counters.items() if k.startswith("max_distinct_states:"))
-    for i in range(distinct):
-        if len(res.nontrivial) >= distinct:
-            break
-        res.nontrivial.add("state#%d" % i)
     p = plan(tier)
     return common.finish(
         PROP, tier, seed, res, "exploration",
@@ -102,7 +98,7 @@ def run(tier, seed, t0):
         t0,
         ["the naive models (Vec<BTreeSet>, BTreeMap) are right", "touching a never-inserted element inserts it",
          "get_data None is equivalent to empty data"],
-        min_judged=1000, exhaustive=True)
+        min_judged=1000, exhaustive=True, distinct_measured=distinct)
 
 
 def replay(path):
